@@ -230,6 +230,10 @@ def helgrind_keys(text):
                 cur = []
                 stacks.append(cur)
         stacks = [st for st in stacks if st]
+        if kind == "data-race" and len(stacks) >= 2 and all("c20_threads.c" in st[0][1] for st in stacks[:2]):
+            # both accesses are made by the harness itself: its relaxed-atomic pacing variables (g_tcb_serial, g_in_gap, ...),
+            # plain loads/stores that helgrind cannot tell from unsynchronised ones.  Not library state.
+            continue
 
         def inner(st):
             for fn, path, line in st:
@@ -659,7 +663,7 @@ def blocked_in_locks(stacks, nthreads):
 
 def run(ctx):
     t0 = ctx.t0
-    binary = vflib.compile_harness("tsan", "c20", ["checks/c20_threads.c"])
+    binary = vflib.compile_harness("tsan", "c20", ["checks/c20_threads.c"], wraps=("psGetPrng",))
     outdir = os.path.join(vflib.SCRATCH, ".out", "C20-%d" % os.getpid())
     shutil.rmtree(outdir, ignore_errors=True)
     os.makedirs(outdir)
@@ -732,6 +736,8 @@ def run(ctx):
         nthreads_seen.add(r.threads)
         res.stats["run_wall_max_s"] = max(res.stats.get("run_wall_max_s", 0), int(r.wall + 0.5))
         res.add_stat("threads_total", r.threads + 2)
+        if h.run:
+            res.add_stat("nst_gap_failpoint_waits", h.run.get("gap_hits", 0)); res.add_stat("nst_gap_failpoint_keys_emptied_meanwhile", h.run.get("gap_served", 0))
         before = sum(v["count"] for v in res.viol.values())
         n = check_history(h, res, r.replay, pairs, samples)
         if n == 0:
@@ -755,7 +761,7 @@ def run(ctx):
 
     # ---- thorough: the same workload under helgrind on a prod build
     if ctx.thorough and not ctx.replay and shutil.which("valgrind"):
-        hb = vflib.compile_harness("prod", "c20", ["checks/c20_threads.c"])
+        hb = vflib.compile_harness("prod", "c20", ["checks/c20_threads.c"], wraps=("psGetPrng",))
         hruns = [Run(5000 + i, derive(ctx.seed, 5000 + i), 4, 12, outdir) for i in range(20)]
         hdone = execute(hruns, hb, crlarg, keydir, "helgrind", lambda r: 900, vflib.NCPU)
         hk = {}
